@@ -41,6 +41,7 @@ def strata(tier):
     yield 'SV', programs.sv
     yield 'SL', programs.sl
     yield 'VS', programs.vs
+    yield 'SN', programs.sn
     yield 'S2', programs.s2
     yield 'S3', (lambda: programs.s3(5)) if tier == 'quick' else (lambda: programs.s3(6))
     yield 'S4', (lambda: programs.s4(8)) if tier == 'quick' else (lambda: programs.s4(None))
@@ -49,7 +50,7 @@ def strata(tier):
 def blocks(tier, seed):
     out = []
     for name, _ in strata(tier):
-        nb = {'S1': 8, 'SV': 2, 'SL': 4, 'VS': 1, 'S2': 16, 'S3': 64 if tier == 'quick' else 256, 'S4': 32 if tier == 'quick' else 96}[name]
+        nb = {'S1': 8, 'SV': 2, 'SL': 4, 'VS': 1, 'SN': 8, 'S2': 16, 'S3': 64 if tier == 'quick' else 256, 'S4': 32 if tier == 'quick' else 96}[name]
         for b in range(nb):
             out.append({'stratum': name, 'b': b, 'nb': nb})
     return out
@@ -191,7 +192,7 @@ def check_program(p):
             out.append(('semantics:' + fk, _short(first_b), _short(first_a), 'one evaluation pass differs from the equations as written (t=%d)' % t))
             break
         wrote = wrote or any(w for _, w in a if isinstance(w, tuple) and w and w[0] != 'EXC')
-        if any(n in ('t', 'self', 'np') or keyword.iskeyword(n) for n in names) or "self['" in script:
+        if any(n in ('t', 'self', 'np', '__debug__') or keyword.iskeyword(n) for n in names) or "self['" in script:
             c = None  # the equation text 't[t]' / 'self[t]' cannot be bound by the harness: only the code is judged
         else:
             try:
